@@ -1,5 +1,7 @@
 #!/usr/bin/env python3
-"""Binding demonstration: apply each mutation under selftest/mutations/<ID>/*.diff to a scratch
+"""Binding demonstration: (with --seeded: every independently seeded change under seeded/<id>/, expectation
+VIOLATION, property taken from meta.json; patch_rebased.diff is preferred over patch.diff)
+apply each mutation under selftest/mutations/<ID>/*.diff to a scratch
 copy of /repo (outside /repo and /verif), run the property's check against the copy and compare
 with the expected outcome (first line of the diff: '# expect: VIOLATION' or '# expect: PASS').
 Usage: selftest/run.py [ID ...] [--tier quick] [--keep]"""
@@ -9,13 +11,28 @@ VERIF = os.path.dirname(os.path.dirname(os.path.abspath(__file__)))
 def main():
     args = [a for a in sys.argv[1:] if not a.startswith("--")]
     tier = "quick"
+    seeded = "--seeded" in sys.argv
     ids = args or sorted(os.path.basename(d) for d in glob.glob(os.path.join(VERIF, "selftest", "mutations", "*")))
     ok = True
-    for pid in ids:
-        for diff in sorted(glob.glob(os.path.join(VERIF, "selftest", "mutations", pid, "*.diff"))):
-            name = os.path.basename(diff)[:-5]
-            first = open(diff).readline()
-            expect = "PASS" if "expect: PASS" in first else "VIOLATION"
+    work = []
+    if seeded:
+        import json
+        for d in sorted(glob.glob(os.path.join(VERIF, "seeded", "*"))):
+            meta = json.load(open(os.path.join(d, "meta.json")))
+            pid = meta.get("property", os.path.basename(d)[:3])
+            if args and pid not in args:
+                continue
+            diff = os.path.join(d, "patch_rebased.diff")
+            if not os.path.exists(diff):
+                diff = os.path.join(d, "patch.diff")
+            work.append((pid, "seeded-" + os.path.basename(d), diff, "VIOLATION"))
+    else:
+        for pid in ids:
+            for diff in sorted(glob.glob(os.path.join(VERIF, "selftest", "mutations", pid, "*.diff"))):
+                first = open(diff).readline()
+                work.append((pid, os.path.basename(diff)[:-5], diff, "PASS" if "expect: PASS" in first else "VIOLATION"))
+    for pid, name, diff, expect in work:
+        if True:
             scratch = "/tmp/selftest_%s_%d" % (pid, os.getpid())
             shutil.rmtree(scratch, ignore_errors=True)
             os.makedirs(scratch)
